@@ -109,6 +109,8 @@ def tee_scenario(seed):
     class Source:
         def __init__(self):
             self.items = [Item(1, p + 1, 1) for p in range(srclen)]
+            if srclen >= 2:
+                self.items[1] = None        # one item is the object None
             self.pos = 0
             self.calls = 0
 
@@ -164,7 +166,7 @@ def tee_scenario(seed):
                         terminal(e="end", c=c)
                         return
                     inside = False
-                    ev(e="recv", c=c, x=v.p if isinstance(v, Item) else -1)
+                    ev(e="recv", c=c, x=v.p if isinstance(v, Item) else 2 if (v is None and srclen >= 2) else -1)
                 await child.aclose()
                 terminal(e="closed", c=c)
             except asyncio.CancelledError:
